@@ -2,6 +2,7 @@
 #include <igris/sync/syslock.h>
 #include <igris/syncxx/event.h>
 #include <igris/util/macro.h>
+#include <igris/util/verif_hook.h>
 
 struct linux_waiter
 {
@@ -20,6 +21,7 @@ int wait_current_schedee(igris::dlist_base *head, int priority, void **future)
     linux_waiter waiter;
     waiter.w.func = __unwait_handler;
     waiter.w.obj = reinterpret_cast<uintptr_t>(&waiter);
+    IGRIS_VERIF_POINT("w_create", &waiter.event, 0);
 
     system_lock();
 
@@ -27,6 +29,7 @@ int wait_current_schedee(igris::dlist_base *head, int priority, void **future)
         head->move_front(waiter.w.lnk);
     else
         head->move_back(waiter.w.lnk);
+    IGRIS_VERIF_POINT("w_enq", &waiter.event, priority);
     system_unlock();
 
     // auto save = system_lock_save();
@@ -34,6 +37,8 @@ int wait_current_schedee(igris::dlist_base *head, int priority, void **future)
     // system_lock_restore(save);
 
     *future = (void *)waiter.w.future;
+    IGRIS_VERIF_POINT("w_resumed", &waiter.event, waiter.w.future);
+    IGRIS_VERIF_POINT("w_destroy", &waiter.event, 0);
     return 0;
 }
 
